@@ -60,19 +60,60 @@ pub fn gen_healthy_history(seed: u64, tier: Tier, check: &str) -> Scenario {
     let mut sc = gen_history(&mut r, check, seed, &hc);
     // interrupted-with-header: kill some backups at a point after the head exists
     for s in sc.steps.iter_mut() {
-        if let Step::Backup { plan, .. } = s {
-            if r.chance(1, 4) {
-                plan.crash_on = Some(match r.below(3) {
+        if let Step::Backup { plan, opts } = s {
+            if r.chance(1, 3) {
+                plan.crash_on = Some(match r.below(5) {
                     0 => ("write".into(), "*/i/".into()),
                     1 => ("write".into(), "*BANDTAIL".into()),
-                    _ => ("write".into(), "d/".into()),
+                    2 => ("write".into(), "d/".into()),
+                    _ => {
+                        // after one to three hunks are on disk: the stitched listing then resumes
+                        // in the middle of the older version's index
+                        opts.max_entries_per_hunk = *r.pick(&[1, 2, 3]);
+                        plan.crash_on_skip = 1 + r.below(3) as u32;
+                        ("write".into(), "*/i/".into())
+                    }
                 });
             }
         }
     }
+    // older versions need several hunks for a resume point to fall inside their index
+    if r.chance(1, 2) {
+        for s in sc.steps.iter_mut() {
+            if let Step::Backup { opts, .. } = s {
+                opts.max_entries_per_hunk = opts.max_entries_per_hunk.min(*r.pick(&[2, 3, 5]));
+            }
+        }
+    }
     // make sure something is stored at the end
-    let opts = crate::genr::draw_opts_small_blocks(&mut r);
-    sc.steps.push(Step::Backup { opts, plan: FaultPlan::none() });
+    let mut opts = crate::genr::draw_opts_small_blocks(&mut r);
+    if r.chance(1, 2) {
+        // directed tail: a complete multi-hunk version, a few edits, and a backup killed after
+        // one or two of its hunks are on disk, so that the newest version is a stitched one
+        // whose resume point lies inside the older version's index
+        opts.max_entries_per_hunk = *r.pick(&[2, 3]);
+        sc.steps.push(Step::Backup { opts: opts.clone(), plan: FaultPlan::none() });
+        let mut model = crate::tree::TreeModel::new(sc.root_meta);
+        for s in &sc.steps {
+            if let Step::Edit(es) = s {
+                for e in es {
+                    model.apply(e);
+                }
+            }
+        }
+        let cfg = crate::genr::GenCfg::draw(&mut r, &opts, false);
+        let mut g = crate::genr::Gen::new(r.derive("tail"));
+        g.next_cseed = 9_000_000;
+        g.clock = 9_000_000;
+        let burst = g.burst(&model, &cfg, 1 + r.usize(4));
+        sc.steps.push(Step::Edit(burst));
+        let mut plan = FaultPlan::none();
+        plan.crash_on = Some(("write".into(), "*/i/".into()));
+        plan.crash_on_skip = 1 + r.below(2) as u32;
+        sc.steps.push(Step::Backup { opts, plan });
+    } else {
+        sc.steps.push(Step::Backup { opts, plan: FaultPlan::none() });
+    }
     sc
 }
 
